@@ -657,7 +657,7 @@ class Spec:
             "tasks runnable at once and one pre-emption; distinct = distinct sync-order signature among those runs")
 
     def runs(self, tier):
-        return 6000 if tier == "quick" else 300000
+        return 9000 if tier == "quick" else 300000
 
     def wall_budget(self, tier):
         return 150 if tier == "quick" else 3000
